@@ -109,3 +109,36 @@ package rtph265
 //@     invariant forall j :: 0 <= j && j < len(rets) ==> rets[j] != nil && fresh(rets[j]) && len(rets[j].Payload) <= e.PayloadMaxSize && !rets[j].Marker
 //@     invariant forall j :: 0 <= j && j < len(rets) ==> rets[j].SequenceNumber == old(e.sequenceNumber) + uint16(j)
 //@     invariant forall j :: 0 <= j && j < len(rets) ==> rets[j].PayloadType == e.PayloadType && rets[j].SSRC == *e.SSRC
+
+// ---------------------------------------------------------------------------
+// Decoder (C08: hostile packets; C07: resynchronisation clauses)
+
+// sumlen(s, n): total number of bytes in the first n units of s.
+//@ ufun sumlen(s [][]byte, n int) int = ite(n <= 0, 0, sumlen(s, n-1) + len(s[n-1]))
+//@   lemma[n; t [][]byte] (forall k :: 0 <= k && k < n ==> len(s[k]) == len(t[k])) ==> sumlen(s, n) == sumlen(t, n)
+//@   trigger sumlen(s, n)
+//@   trigger sumlen(t, n)
+
+// Retention is bounded: the fragment counter equals the retained bytes and is capped, the
+// frame buffer holds at most MaxNALUsPerAccessUnit units of at most MaxAccessUnitSize bytes.
+//@ typeinv Decoder d
+//@   inv[C08] 0 <= d.fragmentsSize && d.fragmentsSize <= h265.MaxAccessUnitSize
+//@   inv[C08] d.fragmentsSize == sumlen(d.fragments, len(d.fragments))
+//@   inv[C08] 0 <= d.frameBufferLen && d.frameBufferLen <= h265.MaxNALUsPerAccessUnit && len(d.frameBuffer) == d.frameBufferLen
+//@   inv[C08] 0 <= d.frameBufferSize && d.frameBufferSize <= h265.MaxAccessUnitSize
+//@   inv[C08] d.frameBuffer != nil ==> d.frameBufferLen >= 1
+
+//@ func joinFragments
+//@   requires size >= 0 && size <= 281474976710656
+//@   ensures len(ret) == size && fresh(ret)
+//@   modifies fresh
+
+//@ func (d *Decoder) Decode
+//@   opt safety-tag=C08
+//@   opt frame-tag=C08
+//@   requires len(pkt.Payload) <= 65535
+//@   ensures[C08] err != nil || len(ret) > 0
+//@   ensures[C08] err == nil ==> len(ret) <= h265.MaxNALUsPerAccessUnit
+//@   ensures[C08] err != nil ==> ret == nil
+//@   ensures[C08] err == nil && d.frameBuffer != nil ==> ref(ret) != ref(d.frameBuffer)
+//@   modifies fields(d), elems(d.fragments), elems(d.frameBuffer), fresh
